@@ -88,6 +88,29 @@ Definition change_password (st : store) (n : str) (stored : str) : store :=
   | None => st
   end.
 
+(* the server's own write paths.  SetUser (functions.go; used by the admin create handler and the Ego
+   builtin) lower-cases the name, stores HashPassword(password) and the given permission list; the DeleteUser
+   builtin lower-cases too.  [stored] is the credential text that ends up in the record. *)
+Definition set_user (st : store) (name stored : str) (perms : list str) : store :=
+  write {| uname := lower name; upass := stored; uperms := perms |} st.
+Definition delete_user (st : store) (name : str) : store :=
+  filter (fun x => negb (str_eqb (uname x) (lower name))) st.
+
+Inductive sop :=
+| SSet (name stored : str) (perms : list str)
+| SDelete (name : str)
+| SChange (n c : str)                       (* admin update: ReadUser n, replace the credential, WriteUser *)
+| SLogin (plaintext : bool) (u p : str).    (* ValidatePassword's side effect *)
+Definition sstep (H : hashes) (st : store) (o : sop) : store :=
+  match o with
+  | SSet n c ps => set_user st n c ps
+  | SDelete n => delete_user st n
+  | SChange n c => change_password st n c
+  | SLogin pt u p => snd (validate H pt st u p)
+  end.
+(* every store these paths can produce, starting from the empty one *)
+Definition build (H : hashes) (ops : list sop) : store := fold_left (sstep H) ops [].
+
 (* ------------------------------------------------------------------ the specification side *)
 Inductive cred := CBcrypt (h : str) | CPlain (text : str) | CLegacy (hex : str).
 Definition classify (s : str) : cred :=
